@@ -102,6 +102,7 @@ var (
 	c02CondXPos = ref.SCond{Op: ">", Var: "x", C: 0}
 	c02CondEq1  = ref.SCond{Op: "==", C: 1}
 	c02CondLt1  = ref.SCond{Op: "<", C: 1}
+	c02CondTick = ref.SCond{Op: "tick"}
 )
 
 // bounds (see the counts printed by VERIF_C02_COUNT=1). Compiling a generated rule costs about
@@ -114,6 +115,7 @@ var c02K = map[string][2]int{ // family -> {quick, thorough}
 	"deep":   {4, 5},
 	"flow":   {3, 4},
 	"assign": {3, 4},
+	"tick":   {4, 5},
 }
 
 func c02Families(thorough bool) []c02Family {
@@ -135,6 +137,10 @@ func c02Families(thorough bool) []c02Family {
 			Conds: []ref.SCond{c02CondFlag, c02CondXPos}, LoopConds: nil,
 			ForBounds: []int64{2}, Colls: []string{"M2"}},
 	}
+	// conditions with a side effect (an injected function that records its call and answers true,
+	// false, true, ...): which conditions are evaluated, how often and in which order is observable
+	fams = append(fams, c02Family{Name: "tick", NoPrelude: true, Leaves: nil, Rets: []*ref.SReturn{c02Ret7},
+		Conds: []ref.SCond{c02CondTick, c02CondF}, LoopConds: nil, ForBounds: []int64{2}, Colls: []string{"L2"}})
 	for i := range fams {
 		if fams[i].MaxElif == 0 {
 			fams[i].MaxElif = 2
@@ -447,6 +453,12 @@ func (v c02Val) live() *c02Live {
 		"S": lv.s, "flag": v.Flag, "X0": v.X0, "L0": lv.l0, "L2": lv.l2, "A2": lv.a2, "M2": lv.m2,
 		"v": lv.rec.V,
 	}
+	ticks := 0
+	lv.inj["tick"] = func() bool {
+		lv.rec.evs = append(lv.rec.evs, ref.SEvent{ID: 99})
+		ticks++
+		return ticks%2 == 1
+	}
 	for id := int64(1); id <= c02MaxObs; id++ {
 		lv.inj[c02ObsNames[0][id]] = lv.rec.start0(id)
 		lv.inj[c02ObsNames[1][id]] = lv.rec.start1(id)
@@ -562,6 +574,8 @@ func c02CondText(c *ref.SCond) string {
 		return c.Op
 	case "var":
 		return c.Var
+	case "tick":
+		return "tick()"
 	}
 	return fmt.Sprintf("%s %s %d", c.Var, c.Op, c.C)
 }
@@ -1200,15 +1214,16 @@ func c02Replay(v *hx.Violation) []hx.Finding {
 
 func c02RuleText() string {
 	var fs []string
-	for _, name := range []string{"skel", "deep", "flow", "assign"} {
+	for _, name := range []string{"skel", "deep", "flow", "assign", "tick"} {
 		fs = append(fs, fmt.Sprintf("%s<=%d/%d", name, c02K[name][0], c02K[name][1]))
 	}
 	return "every statement tree with at most K nodes (node = statement, else-if clause, else clause or return; a block = 0..2 statements + optional trailing return; compound nesting <= 3) " +
 		"built from: observer call | assignment | break | continue (only inside a loop) | if c {B} (else if c {B})^0..2 (else {B})? | for v=0; v<n; v+=1 {B} | forRange v := coll {B}; " +
-		"four families of alphabets, K quick/thorough: " + strings.Join(fs, ", ") + ". " +
+		"five families of alphabets, K quick/thorough: " + strings.Join(fs, ", ") + ". " +
 		"skel: observer calls only, c in {true,false, v==1}, n=3, coll = slice of 2, return 7. " +
 		"deep: + x += 1, y := x, coll in {slice of 2, map of 2}, return x. " +
 		"flow: + S.F = x, c in {true,false,flag,x>0,v==1,v<1}, n in {0,2,3}, coll in {empty slice, slice of 2, array of 2, map of 2}, return | return x. " +
+		"tick: observer calls only, c in {tick(), false} where tick() is an injected function that records its call and answers true, false, true, ... (a condition with a side effect), n=2, coll = slice of 2, return 7. " +
 		"assign: 18 assignments (= := += -= *= /= on locals x,y and injected S.F; constant, local, injected and not-yet-assigned right-hand sides), c in {flag, x>0}, n=2, coll = map of 2, return | return x | return 7. " +
 		"(v = variable of the innermost enclosing loop; a tree produced by an earlier family is not repeated.) " +
 		"Each tree is framed by `x = X0` (not in skel) and, when the top block has no return, a final observer call; every observer call passes all locals the reference semantics defines there; " +
@@ -1222,7 +1237,7 @@ func init() {
 	hx.Register(&hx.Prop{
 		ID:          "C02",
 		Workers:     func(string) int { return 16 },
-		BudgetQuick: 150 * time.Second,
+		BudgetQuick: 300 * time.Second,
 		BudgetThor:  20 * time.Minute,
 		Kind:        "cases",
 		Rule:        c02RuleText(),
